@@ -87,6 +87,41 @@ func H_C19_handler_guard() {
 	vAssert(vEffects() == 0, "a refused request reads and changes nothing: no further call")
 }
 
+
+// handlers registered by Serve, collected by the models of http.HandleFunc / http.Handle
+var vHandlers []func(http.ResponseWriter, *http.Request)
+var vPatterns []string
+
+func vHandleFunc(pattern string, h func(http.ResponseWriter, *http.Request)) {
+	vPatterns = append(vPatterns, pattern)
+	vHandlers = append(vHandlers, h)
+}
+func vHandle(pattern string, h http.Handler) {
+	vPatterns = append(vPatterns, pattern)
+	vHandlers = append(vHandlers, h.ServeHTTP)
+}
+
+// H_C19_serve: the real Serve with http.HandleFunc / http.Handle recording what is registered
+// (listening is an environment call, the serving goroutine is not started): every handler that
+// Serve registers - whatever their number - does nothing once the Host check refuses.
+func H_C19_serve() {
+	vHandlers = nil
+	err := Serve("127.0.0.1:8088")
+	if err != nil {
+		return
+	}
+	vAssert(len(vHandlers) >= 3, "Serve registers its handlers")
+	for i := range vHandlers {
+		e0 := vEffects()
+		w := &vRW{}
+		r := &http.Request{Host: "evil.example", Method: vString("method", 4)}
+		vHandlers[i](w, r)
+		vAssert(w.writes == 0 && w.status == 0 && w.hdr == nil, "a refused request reads and changes nothing: nothing written (registered handler)")
+		vAssert(vEffects() == e0, "a refused request reads and changes nothing: no further call (registered handler)")
+	}
+	vReach("all-registered-handlers-refuse")
+}
+
 type vErr struct{ msg string }
 
 func (e vErr) Error() string { return e.msg }
@@ -99,6 +134,7 @@ func H_C19_html() {
 	vUnsafeClass(0)
 	w := &vRW{}
 	h := hash.Hash(make([]byte, 20))
+	vZoned, vZone = vBool("zoned"), vString("zone", 3)
 	switch vParam("page") {
 	case 0:
 		torrentFile(w, h, path.Path{vString("c0", 3), vString("c1", 3)}, 100, 1)
@@ -190,6 +226,25 @@ func vGetKnowns(t *tor.Torrent) ([]known.Peer, error) { return nil, nil }
 
 var vKnownVersion string
 var vHasKnown bool
+
+// model of netip.AddrPort.String / netip.Addr.String: the text of an address learnt from a tracker
+// (original, non-compact peer format: netip.ParseAddr of a string in the reply) may carry an IPv6
+// zone, which the library neither restricts nor escapes: any bytes after '%'.
+var vZoned bool
+var vZone string
+
+func vAddrPortString(a netip.AddrPort) string {
+	if vZoned {
+		return "[fe80::1%" + vZone + "]:6881"
+	}
+	return "10.0.0.1:6881"
+}
+func vAddrString(a netip.Addr) string {
+	if vZoned {
+		return "fe80::1%" + vZone
+	}
+	return "10.0.0.1"
+}
 
 func vGetKnown(t *tor.Torrent, id hash.Hash, addr netip.AddrPort) (*known.Peer, error) {
 	if !vHasKnown {
